@@ -265,12 +265,25 @@ class Coq:
         self.discharged = 0
         self.cmd = ''
         self.statements = {}
+        self.translated = 0
+        self.translation_log = ''
 
     def build(self, timeout=1500):
         with Lock():
             return self._build(timeout)
 
     def _build(self, timeout):
+        # (T) regenerate the translated definitions from the current source, fail-closed
+        env = dict(os.environ, SKGSTAT_REPO=REPO, PYTHONPATH=REPO)
+        rc, out, _ = sh(['/venv/bin/python', os.path.join(VERIF, 'tools', 'py2coq.py')], env=env, timeout=120)
+        self.translation_log = out
+        m = re.search(r'translated (\d+) functions', out)
+        self.translated = int(m.group(1)) if m else 0
+        if rc != 0:
+            for f in os.listdir(os.path.join(COQ, 'Gen')) if os.path.isdir(os.path.join(COQ, 'Gen')) else []:
+                if f.endswith('.v'):
+                    os.remove(os.path.join(COQ, 'Gen', f))
+            self.broken.append({'kind': 'translation', 'file': 'tools/py2coq.py', 'lemma': 'translate', 'error': out.strip()[-400:]})
         rc, out, _ = sh([os.path.join(VERIF, 'tools', 'mkproject.sh')])
         files = cone(self.prop_file)
         for e in self.extra:
@@ -347,6 +360,25 @@ class Coq:
         mod = 'SG.Properties.%s' % self.pid
         rc, out, dt = sh('timeout 1500 coqchk -silent -o -Q . SG %s' % mod, cwd=COQ, timeout=1530)
         return rc, out[-3000:], dt
+
+    def interval_goals(self, goals, name=None, imports='Gen.Models'):
+        """goals: list of Coq propositions over R (strings); each proved by `interval` in one generated file.
+        Returns (number proved, list of failing goal indices, log)."""
+        if not goals:
+            return 0, [], ''
+        os.makedirs(os.path.join(COQ, 'Cases'), exist_ok=True)
+        name = name or ('%s_interval' % self.pid)
+        path = os.path.join(COQ, 'Cases', name + '.v')
+        with open(path, 'w') as f:
+            f.write('From Coq Require Import Reals.\nFrom Interval Require Import Tactic.\nFrom SG Require Import %s.\nLocal Open Scope R_scope.\n' % imports)
+            for k, g in enumerate(goals):
+                f.write('Goal %s.\nProof. idtac "GOAL %d". %s Qed.\n' % (g[0], k, g[1]))
+        rc, out, dt = sh('timeout 900 coqc -Q . SG -w -notation-overridden,-ambiguous-paths Cases/%s.v' % name, cwd=COQ, timeout=930)
+        started = [int(x) for x in re.findall(r'GOAL (\d+)', out)]
+        if rc == 0:
+            return len(goals), [], ''
+        failing = [started[-1]] if started else [0]
+        return (started[-1] if started else 0), failing, out[-600:]
 
     def golden(self, cases, name=None):
         """cases: list of (fname-id, args, expected) evaluated by vm_compute inside Coq.
